@@ -123,11 +123,16 @@ def nodes_inl(fn: FunctionInfo, depth: int = 2, _seen: set | None = None) -> Ite
 
 
 def helper_return_expr(fn: FunctionInfo, call: ast.Call) -> tuple[ast.AST, FunctionInfo] | None:
-    """if `call` runs a private helper whose body is a single `return <expr>`, that expression (as written in the helper)"""
+    """if `call` runs a private helper whose body is a single `return <expr>` (or `tmp = <expr>; return tmp`), that expression (as written in the helper)"""
     g = private_helper(fn, call)
     if g is None:
         return None
     body = [st for st in g.node.body if not (isinstance(st, ast.Expr) and isinstance(st.value, ast.Constant))]
     if len(body) == 1 and isinstance(body[0], ast.Return) and body[0].value is not None:
         return body[0].value, g
+    # `tmp = <expr>; return tmp`
+    if len(body) == 2 and isinstance(body[1], ast.Return) and isinstance(body[1].value, ast.Name) and isinstance(body[0], (ast.Assign, ast.AnnAssign)) and body[0].value is not None:
+        tg = body[0].targets if isinstance(body[0], ast.Assign) else [body[0].target]
+        if len(tg) == 1 and isinstance(tg[0], ast.Name) and tg[0].id == body[1].value.id:
+            return body[0].value, g
     return None
